@@ -15,4 +15,3 @@ INVARIANT Inv_NoPolicy
 INVARIANT Inv_Override
 INVARIANT Inv_Counts
 INVARIANT Inv_Exact
-PROPERTY Live
